@@ -206,6 +206,21 @@ def static_domain(prog):
     return walk(prog, False, True)
 
 
+def _nesting(v):
+    """depth of nested tuples (a canonical list is ('l', (items...)): two tuple levels per list level)"""
+    depth, frontier = 0, [v]
+    while frontier:
+        nxt = []
+        for x in frontier:
+            if isinstance(x, tuple):
+                nxt.extend(x)
+        if not nxt:
+            break
+        depth += 1
+        frontier = nxt
+    return depth
+
+
 def run_ref(prog, inputs, flags="", preset=None, finish=False, fuel=1500):
     bad = static_domain(prog)
     if bad:
@@ -220,6 +235,10 @@ def run_ref(prog, inputs, flags="", preset=None, finish=False, fuel=1500):
                     return ("ood", "result too large to compare within the time backstop", None, vm)
                 return ("ok", None, out, vm)
             cs = tuple(canon_ref(x) for x in st)
+            if _nesting(cs) > 40:
+                # how deep a value may nest before CPython's recursion limit hits inside the library depends on how deep the
+                # call stack already is (a worker frame, a watchdog frame): not part of the semantics
+                return ("ood", "result nested deeper than 20 list levels", None, vm)
             if len(repr(cs)) > 20000:
                 return ("ood", "result too large to compare within the time backstop", None, vm)
             return ("ok", cs, "".join(vm.out), vm)
